@@ -94,6 +94,7 @@ type Ctx struct {
 	viaStack  []string
 	clk0      *Term
 	curFrame  *frame
+	defAxioms map[*ssa.Function]bool
 	started   time.Time
 	trivial   int
 	globals   map[*Cell]*Val
